@@ -67,7 +67,7 @@ var (
 	statuses = []int{400, 404, 409, 416, 418, 429, 500, 503, 599}
 	origins  = []string{"std", "wire", "custom"}
 	msgKinds = []string{"plain", "status-prefix", "other-status-prefix", "code-prefix", "full-prefix", "repeated",
-		"bare-code-prefix", "prefix-only", "empty", "utf8", "invalid-utf8", "colon"}
+		"bare-code-prefix", "prefix-only", "empty", "utf8", "invalid-utf8", "colon", "long"}
 	details = []struct{ class, json string }{
 		{"none", ""},
 		{"object", `{"a":1,"b":"two"}`},
@@ -79,6 +79,9 @@ var (
 		{"null", `null`},
 		{"bool", `false`},
 		{"dup-keys", `{"a":1,"a":2}`},
+		// together with a long message the error body is 2–7 KiB: over net/http's 2 KiB buffer (so it is
+		// sent chunked, without Content-Length) and under ociclient's 8 KiB error-body limit
+		{"large", `[` + strings.Repeat(`{"Type":"repository","Name":"some/repository/name","Action":"pull"},`, 40) + `null]`},
 	}
 )
 
@@ -157,6 +160,8 @@ func makeMsg(kind string, status int, wireCode string) string {
 		return "bad\xffbyte"
 	case "colon":
 		return ": leading colon"
+	case "long":
+		return "a long explanation: " + strings.Repeat("lorem ipsum dolor sit amet ", 110)
 	}
 	panic("bad msg kind " + kind)
 }
